@@ -8,6 +8,8 @@ import SMV.Props.C13Complete
 import SMV.Props.RefineReply
 import SMV.Props.EndToEnd
 import SMV.Props.RefineDataW
+import SMV.Props.EndToEndModes
+import SMV.Props.C14Names
 namespace SMV.Witness
 open SMV
 
@@ -318,5 +320,30 @@ example : ∃ m, parseMachine exDef = .ok m ∧ m = exM := by
   cases hp
   rfl
 
+/-- `conversion_erasure` on the concrete machine: a typed machine in the initial state, a conversion, `go` through
+    `handle`, a conversion back, `stop_2` through the typed method — under any hooks the same machine and trace as
+    the two events through `handle` on the machine wrapped once. Its hypotheses are met. -/
+example (env₁ env₂ : Env) (tm : TM) (hs : tm.state ∈ exM.states) (h : Hist) (evGo evStop : Event)
+    (h1 : evGo ∈ exM.events) (h2 : evStop ∈ exM.events) :
+    Refine.obs (Refine.gRun exM (.typed tm) [.convert, .call env₁ evGo none, .convert, .call env₂ evStop (some 3)] h) =
+      Refine.obs (Refine.gRun exM (Refine.Hold2.typed tm).asDyn [.call env₁ evGo none, .call env₂ evStop (some 3)] h) :=
+  Refine.conversion_erasure exM ex_validates ex_graphBuilt ex_pascalInj _ (.typed tm) h
+    (by
+      intro op hop
+      simp only [List.mem_cons, List.mem_nil_iff, or_false] at hop
+      rcases hop with rfl | rfl | rfl | rfl <;> first | trivial | exact h1 | exact h2)
+    hs
+
+/-- the naming conditions of `C14Names.accepted_iff` hold of the concrete machine -/
+example : C14Names.NamesOK exM true := (C14Names.accepted_iff exM true).mp (by decide)
+
+/-- `end_to_end_modes` applies to the concrete definition -/
+example : ∃ m, parseMachine exDef = .ok m ∧ m.validate = .ok () := by
+  obtain ⟨m, hp, hv, _⟩ := EndToEnd.end_to_end_modes exDef ex_parserRules (by
+    intro m hm
+    rw [ex_parses] at hm
+    cases hm
+    exact (C13.validate_iff exM).mp ex_validates)
+  exact ⟨m, hp, hv⟩
 
 end SMV.Witness
